@@ -39,6 +39,10 @@ AddClaim(o, claim) ==
 
 \* MsgPriceClaim.  a = [by, ep, pr]  (pr: name -> 4*value; a missing or non-positive required price is rejected)
 \* Returns [out, o].
+\* holder values are opaque to the module (it compares whole lists); small ones arrive as integers, 10^18-scale ones as
+\* decimal strings: both are kept as their printed form so that lists of either kind can be compared
+NormList(l) == [i \in DOMAIN l |-> <<l[i][1], ToString(l[i][2])>>]
+
 PriceClaim(o, stk, denoms, a) ==
     IF ~(a.by \in DOMAIN stk /\ stk[a.by].x) THEN [out |-> "err", o |-> o]            \* not a validator account
     ELSE IF a.ep # o.ep THEN [out |-> "ok", o |-> o]                                 \* stale / future epoch: ignored
@@ -49,7 +53,7 @@ HoldersClaim(o, stk, a) ==
     IF ~(a.by \in DOMAIN stk /\ stk[a.by].x) THEN [out |-> "err", o |-> o]
     ELSE IF Cardinality({a.list[i][1] : i \in DOMAIN a.list}) # Len(a.list) THEN [out |-> "err", o |-> o]   \* duplicated address
     ELSE IF a.ep # o.ep THEN [out |-> "ok", o |-> o]
-    ELSE [out |-> "ok", o |-> AddClaim(o, [by |-> a.by, kind |-> "holders", ep |-> a.ep, list |-> a.list])]
+    ELSE [out |-> "ok", o |-> AddClaim(o, [by |-> a.by, kind |-> "holders", ep |-> a.ep, list |-> NormList(a.list)])]
 
 \* quorum of an attestation: the votes are summed in order until the threshold is met
 Threshold(tot) == IF "OracleThresholdFloor" \in OracleDev THEN (66 * tot) \div 100 ELSE (66 * tot + 99) \div 100
@@ -130,4 +134,16 @@ C18Checks(pre, a, post) ==
                /\ 100 * DistinctPower(post.stk, (CHOOSE x \in pa : TRUE).voters) >= 66 * post.tot
                /\ post["or"].pr # NewPrices(pre["or"], post.stk, CHOOSE x \in pa : TRUE), "C18:QuorumIgnored", "price")
 
+\* ---------------------------------------------------------------- the oracle service (oracle/cmd/mhub-oracle)
+\* One pass of relayPricesAndHolders for validator v: nothing before the first epoch or when v's price claim is already
+\* among the votes of the current epoch; otherwise a holders claim in every `period`-th epoch (balances below one whole
+\* unit are left out, values are in 10^-18 units) followed by a price claim, both for the current epoch, carrying what
+\* the external feed shows (served = [pr4, list] with list = <<<<holder, whole units>>, ..>>).
+Units18(u) == ToString(u) \o "000000000000000000"
+ServedHolders(list) == [i \in DOMAIN SelectSeq(list, LAMBDA p : p[2] >= 1) |-> LET p == SelectSeq(list, LAMBDA q : q[2] >= 1)[i] IN <<p[1], Units18(p[2])>>]
+AlreadyVoted(oo, v) == \E a \in oo.att : a.ep = oo.ep /\ a.kind = "price" /\ v \in RangeOf(a.voters)
+ServiceClaims(oo, v, served, period) ==
+    IF oo.ep = 0 \/ AlreadyVoted(oo, v) THEN <<>>
+    ELSE (IF oo.ep % period = 0 THEN <<[k |-> "Holders", by |-> v, ep |-> oo.ep, list |-> ServedHolders(served.list)]>> ELSE <<>>)
+         \o <<[k |-> "Price", by |-> v, ep |-> oo.ep, pr4 |-> served.pr4]>>
 =============================================================================
